@@ -25,6 +25,14 @@ input if there is one (else the VIOLATION line ends with no-failing-input-found)
 therefore also pins the draw (`coin` in the case: exactly 1/2, just below, 0, just below 1) so that a
 changed branch condition shows up as a concrete disagreement, and suite `sample` drives
 `HyperparameterConfig.sample` alone with the recorded permutation.
+
+Initial population (suite `create_population-initial-configs`): `py2lean_pop.py` translates `create_population` /
+`EvolvableAlgorithm.population` into `lean/Gen/PopGen.lean`; `Props/C06.lean` proves that in every branch the members'
+`hp_config` arguments have one sharing class the repaired semantics covers (`C06_source_translation_initial_population_
+configs`).  The suite builds real populations of every algorithm through the real `create_population`, compares the
+generated sharing table with the measured identity of the configuration objects and their RLParameter entries, and runs
+`Mutations.rl_hyperparam_mutation` over the members: one attribute of one agent moves, from that agent's OWN value,
+no other agent's attributes / optimizer learning rates / configuration entries (min, max, factors, dtype) move.
 """
 from __future__ import annotations
 
@@ -38,6 +46,7 @@ import torch
 
 import common
 import py2lean_hpmut
+import py2lean_pop
 from common import ROOT, Check, InfraError, ddmin, frac
 
 torch.set_num_threads(1)
@@ -1169,9 +1178,143 @@ def pre_gate(chk: Check) -> None:
     """Regenerate lean/Gen/HpMutGen.lean from the source text of the tree under test (before the Lean
     gate) and re-check `generated = model` (Proofs/HpMutGenEq.lean) and the theorems over the generated
     definitions (Props/C06.lean).  A failure is a gate problem; the suites then look for the failing input."""
+    # both generated files are imported by Props/C06.lean: bring BOTH up to date with the tree under test before the
+    # first build, so that a file left behind by a run against another tree is never blamed on the wrong translator
+    for tr, rel in ((py2lean_hpmut, "Gen/HpMutGen.lean"), (py2lean_pop, "Gen/PopGen.lean")):
+        try:
+            tr.write_if_changed(tr.translate(common.REPO)[0], common.LEAN_DIR / rel)
+        except tr.Unsupported:
+            pass
     common.translation_gate(chk, py2lean_hpmut, "Gen/HpMutGen.lean",
                             ["Gen.HpMutGen", "Proofs.HpMutGenEq", "Props.C06"],
                             "RLParameter.mutate, HyperparameterConfig.sample")
+    # the initial population: create_population / EvolvableAlgorithm.population -> lean/Gen/PopGen.lean
+    common.translation_gate(chk, py2lean_pop, "Gen/PopGen.lean",
+                            ["Gen.PopGen", "Proofs.PopGenEq", "Props.C06"],
+                            "create_population, EvolvableAlgorithm.population: which configuration objects members share")
+
+
+# ----------------------------------------------------------------------------- initial population (create_population)
+# Which configuration objects the members of the population that `create_population` returns share, against the table
+# `harness/py2lean_pop.py` generates from the source (`Gen/PopGen.lean: sharingTable`), and the property on exactly that
+# population: hyper-parameter mutations through `Mutations` move one attribute of one agent, starting from that
+# agent's OWN value, whatever the members share.
+IP_FIELDS = ("min", "max", "shrink_factor", "grow_factor", "dtype")
+
+
+def ip_expected(param, own, tol=1e-12):
+    """the two values RLParameter.mutate can return from `own`"""
+    out = []
+    for f in (param.shrink_factor, param.grow_factor):
+        v = min(max(own * f, param.min), param.max)
+        out.append(param.dtype(v))
+    return out
+
+
+def run_initpop_hp_case(case: dict, desc) -> tuple[bool, list, list, dict]:
+    """(table disagreement, oracle problems, tags, info)"""
+    import c05 as C5
+    from agilerl.hpo.mutation import Mutations
+    problems, info, pop, hp = C5.ip_case_real(dict(case, hp=True))
+    tags = [f"initpop-{case['algo']}", f"initpop-size-{case['n']}", f"initpop-hp_config-{info.get('hp_config')}"]
+    diff = False
+    if desc is not None and len(pop) >= 2:
+        lit = C5.POP_LITERAL.get(case["algo"], case["algo"])
+        row = next((r for r in desc["create_population"]["table"] if r[0] == lit), None)
+        claimed = dict(row[2]).get("hp_config") if row else None
+        measured = info.get("hp_config")
+        info["table_says"] = claimed
+        if (claimed == "shared" and measured != "shared") or (claimed == "fresh" and measured != "private") \
+                or claimed not in ("shared", "fresh"):
+            diff = True
+            info["disagreement"] = (f"generated sharing table: hp_config of {lit} is `{claimed}`, measured on the "
+                                    f"real population: {measured}")
+    names = list(hp.config)
+    lr_opts = {}
+    for oc in pop[0].registry.optimizers:
+        lr_opts.setdefault(oc.lr, []).append(oc.name)
+    mut = Mutations(0, 0, 0, 0, 0, 1, rand_seed=case["seed"] % (2 ** 31))
+    rng = random.Random(case["seed"])
+    order = list(range(len(pop))) + [rng.randrange(len(pop)) for _ in range(len(pop))]
+    for step, i in enumerate(order):
+        before = [{n: getattr(a, n) for n in names} for a in pop]
+        entries = [{n: tuple(getattr(a.registry.hp_config.config[n], f) for f in IP_FIELDS) for n in names} for a in pop]
+        lrs = [{o: opt_groups(a, o) for os_ in lr_opts.values() for o in os_} for a in pop]
+        mut.rl_hyperparam_mutation(pop[i])
+        k = pop[i].mut
+        if k not in names:
+            problems.append(f"step {step}: agent {i}: mutated `{k}`, configured are {names}")
+            break
+        for j, a in enumerate(pop):
+            now = {n: getattr(a, n) for n in names}
+            ent = {n: tuple(getattr(a.registry.hp_config.config[n], f) for f in IP_FIELDS) for n in names}
+            if ent != entries[j]:
+                problems.append(f"step {step}: mutating agent {i} changed the configuration entries (min/max/factors/"
+                                f"dtype) agent {j} mutates with")
+            if j != i:
+                if now != before[j]:
+                    problems.append(f"step {step}: mutating `{k}` of agent {i} moved hyper-parameters of agent {j}: "
+                                    f"{ {n: (before[j][n], now[n]) for n in names if now[n] != before[j][n]} }")
+                if {o: opt_groups(a, o) for os_ in lr_opts.values() for o in os_} != lrs[j]:
+                    problems.append(f"step {step}: mutating agent {i} moved optimizer learning rates of agent {j}")
+            else:
+                moved = [n for n in names if n != k and now[n] != before[j][n]]
+                if moved:
+                    problems.append(f"step {step}: agent {i}: mutating `{k}` also moved {moved}")
+                want = ip_expected(a.registry.hp_config.config[k], before[j][k])
+                if not any(abs(float(now[k]) - float(w)) <= 1e-12 * max(1.0, abs(float(w))) for w in want):
+                    problems.append(f"step {step}: agent {i}: `{k}` went {before[j][k]} -> {now[k]}; from the agent's own "
+                                    f"value the mutation can give {want} (a neighbour's value was used?)")
+                for o in lr_opts.get(k, []):
+                    if any(abs(float(g) - float(now[k])) > 1e-12 for g in opt_groups(a, o)):
+                        problems.append(f"step {step}: agent {i}: optimizer {o} does not carry the mutated {k}")
+        if problems:
+            break
+    return diff, problems, tags, info
+
+
+def run_initpop_hp(chk: Check) -> tuple[int, int]:
+    import agents as A
+    import c05 as C5
+    desc = C5.initpop_description()
+    rng = chk.rng
+    algos = list(A.ALGOS)
+    rng.shuffle(algos)
+    algos = algos[:6] if chk.tier == "quick" else algos * 2
+    cases = []
+    for k, algo in enumerate(algos):
+        n = 2 + (k + rng.randrange(5)) % 5
+        if A.is_multi_agent(algo):
+            n = min(n, 3)
+        cases.append({"suite": "initpop", "algo": algo, "n": n, "nets": False, "seed": rng.randrange(2 ** 30)})
+    for f in sorted((ROOT / "corpus" / "C06").glob("initpop-*.json")):
+        c = json.loads(f.read_text())
+        cases.insert(0, c.get("replay", c)["initpop"])
+    ndiff = 0
+    for case in cases:
+        try:
+            diff, problems, tags, info = run_initpop_hp_case(case, desc)
+        except InfraError:
+            raise
+        except Exception as ex:
+            diff, problems, tags, info = False, [f"initial population of {case['algo']}: {type(ex).__name__}: {ex}"], \
+                ["initpop-raised"], {}
+        chk.case(["initpop", case], nontrivial=True, tags=tags,
+                 sample={"suite": "initpop", "case": case, **info})
+        if not diff and not problems:
+            continue
+        ndiff += bool(diff)
+        replay_obj = {"suite": "initpop", "initpop": case, "oracle_problems": problems, "details": info,
+                      "correspondence": "harness/c06.py (initial population) vs Gen/PopGen.lean sharingTable",
+                      "theorems": ["C06_source_translation_initial_population_configs",
+                                   "C06_source_translation_sharing_table"]}
+        if problems:
+            chk.violation("initial population: " + problems[0], replay_obj)
+        else:
+            chk.violation(info.get("disagreement", "sharing table and measured aliasing differ")
+                          + "; the property oracle (mutations move one agent only, from its own value) holds",
+                          replay_obj, no_input=True)
+    return len(cases), ndiff
 
 
 # ----------------------------------------------------------------------------- check
@@ -1309,6 +1452,9 @@ def run(chk: Check) -> None:
             nsd += any(d is not None for d, *_ in res)
             report_session(chk, sess, res)
     chk.suite("session", len(sessions), nsd)
+    if len(chk.violations) < 5:
+        n_ip, d_ip = run_initpop_hp(chk)
+        chk.suite("create_population-initial-configs", n_ip, d_ip)
     probe_rejects_unknown_hp(chk)
     probe_lr_identity(chk)
     if chk.tier == "thorough":
@@ -1480,6 +1626,17 @@ def replay(chk: Check, path: str) -> int:
             print(f"VIOLATION property=C06 replay={path}")
             return 1
         if res != out:
+            print(f"VIOLATION property=C06 replay={path} no-failing-input-found")
+            return 1
+        return 0
+    if c.get("suite") == "initpop":
+        import c05 as C5
+        diff, problems, tags, info = run_initpop_hp_case(c["initpop"], C5.initpop_description())
+        print(json.dumps({"diff": diff, "oracle_problems": problems, "details": info}, indent=1, default=str))
+        if problems:
+            print(f"VIOLATION property=C06 replay={path}")
+            return 1
+        if diff:
             print(f"VIOLATION property=C06 replay={path} no-failing-input-found")
             return 1
         return 0
